@@ -29,4 +29,15 @@ if ! go build $OVFLAGS -o "$BIN" ./cmd/verif 2>"$HERE/.build/build.$$.log"; then
   exit 2
 fi
 rm -f "$HERE/.build/build.$$.log"
+if [ "$1" = "C16" ]; then
+  # free-running pass under the race detector: same bodies, uninstrumented library
+  RACEBIN="$HERE/.build/verif-race.$$"
+  trap 'rm -rf "$BIN" "$OVDIR" "$RACEBIN"' EXIT
+  if go build -race -o "$RACEBIN" ./cmd/verif 2>"$HERE/.build/build.$$.log"; then
+    export VERIF_RACE_BIN="$RACEBIN"
+  else
+    echo "note: -race build unavailable, race pass skipped:"; head -5 "$HERE/.build/build.$$.log"
+  fi
+  rm -f "$HERE/.build/build.$$.log"
+fi
 VERIF_ROOT="$HERE" "$BIN" "$@"
